@@ -104,7 +104,7 @@ theorem never_deadlocked {idx : Nat → Nat} {progs : List (List (List Instr))} 
   never_deadlocked' hH h
 
 /-- `Hier` is satisfiable by programs with real nesting, re-entrant reads and rmv of a key being read -/
-example : Hier (fun k => k) [[.getSet 0 (.ok 1), .getSet 0 (.ok 2), .getSet 1 .fail, .exit, .rmv 0 false, .exit], [.rmv 1 true]] = true := by decide
+example : Hier (fun k => k) [[.getSet 0 (.ok 1), .getSet 0 (.ok 2), .getSet 1 .fail, .exit, .rmv 0 false false, .exit], [.rmv 1 true true]] = true := by decide
 
 /-- `Hier` is necessary: two well-nested callers (no collisions at all) that each read one key
 and remove the other one's key reach a state where both wait forever (known finding C19-F1;
@@ -250,5 +250,55 @@ normal, raising and abandoned reads), and takes at most one -/
 theorem semaphore_balanced (hasSem cached1 cached2 : Bool) :
     (openmlSem hasSem cached1 cached2).acquires = (openmlSem hasSem cached1 cached2).releases ∧
     (openmlSem hasSem cached1 cached2).acquires ≤ 1 := semaphore_balanced' hasSem cached1 cached2
+
+/-! Phase 3 -/
+
+/-- DiskCacher inside the transition system: a DiskCacher writes in place, so between `ccreate` and
+`cpop`/`cpopFail` a half-written file exists and an UNLOCKED `exists()` (the `key in self` of `rmv`,
+instruction flag `o`) can answer True for it.  Every theorem of this file is proved for every value of
+that flag.  And no partial entry is ever exposed, for every interleaving: whenever a caller opens an entry
+(`cget`) or receives it (`enter`), nobody is between creating and closing that entry's file, and the
+value is the complete cached one -/
+theorem no_partial_exposed {idx : Nat → Nat} {progs : List (List (List Instr))} {s s' : St} {j : Nat} {ev : Ev} {k v : Nat}
+    (h : Reachable idx progs s) (hs : step idx s j = some (ev, s')) (hev : ev = .cget k v ∨ ev = .enter k v) :
+    partialWriter s k = false ∧ s.cache k = some v := no_partial_exposed' h hs hev
+
+/-- the interleaving that does let the unlocked membership test see a half-written file (replayed
+against the real ConcurrentCacher + DiskCacher under the controlled scheduler): the test answers True
+while the entry is not cached, the remover then waits for the writer and removes the complete entry -/
+theorem partial_file_seen_by_rmv :
+    partialWriter (run id (init seenProgs) (List.replicate 8 0 ++ [1, 1])).1 0 = true ∧
+    (run id (init seenProgs) (List.replicate 8 0 ++ [1, 1])).1.cache 0 = none ∧
+    (run id (init seenProgs) seenSched).2.getLast? = some (1, .contains 0 true) ∧
+    (run id (init seenProgs) (seenSched ++ [1] ++ List.replicate 5 0 ++ List.replicate 3 1)).1.allTerminal = true ∧
+    (run id (init seenProgs) (seenSched ++ [1] ++ List.replicate 5 0 ++ List.replicate 3 1)).1.cache 0 = none ∧
+    (run id (init seenProgs) (seenSched ++ [1] ++ List.replicate 5 0 ++ List.replicate 3 1)).1.arr 0 = 0 :=
+  partial_file_seen_by_rmv'
+
+/-- a static, program-level criterion weaker than `Hier`: an ACYCLIC STATIC LOCK ORDER.  `ord` ranks the
+keys consistently with the lock slots (`idx a = idx b → ord a = ord b`) and every nested operation of every
+program targets a key the caller already holds or a key of higher rank than everything it holds
+(`Hier ord`; such an `ord` exists iff the graph "held slot → requested slot" over all nested operations of
+all programs has no cycle — the harness computes it by topological sorting).  `Hier idx` is the special
+case `ord = idx`.  Then: no deadlock, no cycle in the wait-for graph of any reachable state, and fair termination -/
+theorem deadlock_free_ranked {idx ord : Nat → Nat} {progs : List (List (List Instr))} {s : St}
+    (hord : ∀ a b, idx a = idx b → ord a = ord b) (hH : ∀ p ∈ progs, Hier ord p = true)
+    (h : Reachable idx progs s) (hnt : s.allTerminal = false) :
+    ∃ i ev s', step idx s i = some (ev, s') ∧ ev ≠ .spin := deadlock_free_ranked' hord hH h hnt
+
+theorem no_wait_cycle_ranked {idx ord : Nat → Nat} {progs : List (List (List Instr))} {s : St}
+    (hord : ∀ a b, idx a = idx b → ord a = ord b) (hH : ∀ p ∈ progs, Hier ord p = true)
+    (h : Reachable idx progs s) (i : Nat) : ¬ WaitPath idx s i i := no_wait_cycle_ranked' hord hH h i
+
+theorem fair_termination_ranked {idx ord : Nat → Nat} {progs : List (List (List Instr))}
+    (hord : ∀ a b, idx a = idx b → ord a = ord b) (hH : ∀ p ∈ progs, Hier ord p = true)
+    (σ : Nat → Nat) (hfair : FairSched progs.length σ) :
+    ∃ n, ∀ m, n ≤ m → (runN idx (init progs) σ m).allTerminal = true := fair_termination_ranked' hord hH σ hfair
+
+/-- programs that are not `Hier` for the slot order (5 is held while 2 is requested) but have an acyclic
+static lock order (rank 5 ↦ 0, 2 ↦ 1, 1 ↦ 2), including a nested rmv -/
+example : (∀ p ∈ [[[Instr.getSet 5 (.ok 1), .getSet 2 (.ok 2), .exit, .exit]], [[.getSet 2 (.ok 3), .rmv 1 false false, .exit]]],
+      Hier (fun k => if k = 5 then 0 else if k = 2 then 1 else 2) p = true) ∧
+    Hier id [[Instr.getSet 5 (.ok 1), .getSet 2 (.ok 2), .exit, .exit]] = false := by decide
 
 end Coba.C19
